@@ -8,7 +8,7 @@ from fractions import Fraction as F
 from core import Case
 
 PROP = 'C14'
-COQ_TARGETS = ['theories/DeferredFacts.vo', 'theories/SchedFacts.vo', 'theories/SchedThms.vo', 'theories/SchedOrder.vo', 'theories/SchedRun.vo', 'theories/SchedC14.vo']
+COQ_TARGETS = ['theories/DeferredFacts.vo', 'theories/SchedFacts.vo', 'theories/SchedThms.vo', 'theories/SchedPassive.vo', 'theories/SchedOrder.vo', 'theories/SchedRun.vo', 'theories/SchedC14.vo']
 COQ_IMPORTS = 'From Bac Require Import Base Deferred Sched.'
 RULE = ('cases: one case = the whole observable outcome (event trace of fire/call/raise/API-error, heap in pop order with '
         'counters, isScheduled/taskTime of every task, deferredFns) of a history run on the real TaskManager under a virtual '
